@@ -67,6 +67,15 @@ def run(ctx):
         extra.append({"seed": ctx.seed + k, "jitter": 0.0, "payloads": {"a1": {"flavour": "asyncio"}},
                       "script": [{"op": "park", "point": "sr.svc.enter"}, {"op": "adopt", "p": "a1"}, {"op": "accept"}, {"op": "wait_park", "point": "sr.svc.enter"}, {"op": "shutdown", "ctx": "thread", "wait": False}, {"op": "sleep", "ms": 10 * (k + 1)}, {"op": "release", "point": "sr.svc.enter"}, {"op": "wait_end", "timeout": 4.0},
                                  {"op": "second_accept", "timeout": 0.6}, {"op": "sleep", "ms": 50}, {"op": "shutdown2"}, {"op": "sleep", "ms": 150}], "shape": "targeted-shutdown-at-running"})
+    # shutdown() a second time after a clean first one (also after accept() has ended), and
+    # payloads that swallow their first cancellation(s)
+    for k in range(3):
+        extra.append({"seed": ctx.seed + k, "jitter": 0.0, "payloads": {"a1": {"flavour": "asyncio", "swallow": k, "cleanup": 1}, "t1": {"flavour": "trio"}},
+                      "script": [{"op": "adopt", "p": "a1"}, {"op": "adopt", "p": "t1"}, {"op": "accept"}, {"op": "wait_running"}, {"op": "wait_start", "p": "a1"}, {"op": "shutdown", "ctx": "thread", "wait": True}, {"op": "wait_end", "timeout": 4.0},
+                                 {"op": "shutdown", "ctx": "thread", "wait": True}, {"op": "second_accept", "timeout": 0.6}, {"op": "sleep", "ms": 50}, {"op": "shutdown2"}, {"op": "sleep", "ms": 150}], "shape": "targeted-double-shutdown"})
+        extra.append({"seed": ctx.seed + k, "jitter": 0.0, "payloads": {"a1": {"flavour": "asyncio", "swallow": k + 1}},
+                      "script": [{"op": "adopt", "p": "a1"}, {"op": "accept"}, {"op": "wait_running"}, {"op": "wait_start", "p": "a1"}, {"op": "sigint"}, {"op": "wait_end", "timeout": 4.0},
+                                 {"op": "second_accept", "timeout": 0.6}, {"op": "sleep", "ms": 50}, {"op": "shutdown2"}, {"op": "sleep", "ms": 150}], "shape": "targeted-swallowed-cancel-sigint"})
     # three runners: the second is rejected, the third must be rejected as well
     extra.append({"seed": ctx.seed, "jitter": 0.0, "payloads": {"a1": {"flavour": "asyncio"}},
                   "script": [{"op": "adopt", "p": "a1"}, {"op": "accept"}, {"op": "wait_running"}, {"op": "second_accept", "timeout": 0.5}, {"op": "second_accept", "timeout": 0.5}, {"op": "wait_start", "p": "a1"}, {"op": "step", "p": "a1"}, {"op": "shutdown", "ctx": "thread", "wait": True}, {"op": "wait_end", "timeout": 4.0}], "shape": "targeted-two-rejected-accepts"})
